@@ -49,6 +49,7 @@ def universe():
          T({'a': 1}), T({'a': 2}), [{'a': 1}], T({}, {}), [{}, 1]]
     # numeric neighbours and more strings/dates to thicken ties and type borders
     u += [4, 5, 5.0, 4.5, -2, -2.0, 100, 100.0, 'z', 'zz', 'a', 'aa', 'aaa', ' ', 'x y']
+    u += [2 ** 53, 2 ** 53 + 1, float(2 ** 53), 10 ** 17, 10 ** 17 + 1, 1e17, {'$np': ['int64', 2 ** 53 + 1]}, T(2 ** 53 + 1, 1), T(float(2 ** 53), 1), T(2 ** 53, 1)]   # ints that round to one float
     u += [T(0), T(0.0), T(''), T('', ''), T(0, 0), [0], [0.0], [''], T(False), [True], {'a': True}, {'a': 0}]
     u += [dt('2020-01-01T00:00:01'), {'$date': '1999-12-31'}, {'$np': ['datetime64[D]', '2021-06-30']}, T(dt('2021-06-30T00:00:00'), 1), T({'$date': '2020-01-01'}, 1)]
     return u
